@@ -514,6 +514,22 @@ def gen_inputs(ctx):
         if rng.random() < 0.5:
             gs.insert(rng.randrange(3), gp())
         inputs.append(("phase-adjacent", dict(N=3, basis=rng.choice(pspecs), gates=gs)))
+    # 1c. list bases naming two or more two-qubit gates (every ordered pair, some triples, all five), with circuits holding
+    #     SWAP and each two-qubit kind: which pass runs and what is kept for it must fit together
+    multi = [[a, b2] for a in B2 for b2 in B2 if a != b2]
+    multi += [rng.sample(B2, 3) for _ in range(ctx.n(4, 20))] + [list(B2), list(reversed(B2))]
+    two_q_kinds = ["SWAP", "CNOT", "CSIGN", "ISWAP", "SQRTSWAP", "SQRTISWAP", "FREDKIN", "TOFFOLI"]
+    for m2 in multi:
+        rots = rng.choice([ROT, ["RX", "RY"], ["RX", "RZ"], ["RY", "RZ"], []])
+        b = m2 + rots if rng.random() < 0.7 else rots + m2
+        names = [k for k in two_q_kinds if k not in ("SQRTSWAP", "SQRTISWAP") or k in m2]
+        pick = names if ctx.thorough else ["SWAP"] + rng.sample(names[1:], 2)
+        for name in pick:
+            t, c = placements(name, 3, rng, False)[0]
+            inputs.append(("multi-2q-basis", dict(N=3, basis=b, gates=[mk_gate(name, t, c, rng)])))
+        t, c = placements("SWAP", 3, rng, False)[0]
+        t2, c2 = placements("CNOT", 3, rng, False)[0]
+        inputs.append(("multi-2q-basis", dict(N=3, basis=b, gates=[mk_gate("CNOT", t2, c2, rng), mk_gate("SWAP", t, c, rng), mk_gate("X", [0], [], rng)])))
     # 2. gates without a rule: refused unless requested; edge / invalid specifications
     for name in OTHERS:
         for b in rng.sample(specs, ctx.n(6, len(specs))) + ["CNOT", "CSIGN", "ISWAP", "SQRTSWAP", "SQRTISWAP"]:
@@ -624,7 +640,8 @@ def _nontrivial(inp, impl):
 
 def correspond(ctx):
     corr = Corr(rule="every gate kind x every valid basis specification (5 strings, 5x4 lists, native sets, default) x placements on "
-                     "3 qubits, explicit GLOBALPHASE gates next to every phase-producing kind, gates without a rule, edge/invalid specifications, random sequences on 2-4 qubits, malformed stream; "
+                     "3 qubits, explicit GLOBALPHASE gates next to every phase-producing kind, list bases naming several two-qubit gates (all ordered "
+                     "pairs) with SWAP and every two-qubit kind, gates without a rule, edge/invalid specifications, random sequences on 2-4 qubits, malformed stream; "
                      "non-trivial = the decomposition changes the gate list or is refused")
     inputs = load_corpus() + gen_inputs(ctx)
     seen = set()
